@@ -62,6 +62,47 @@ pub mod ffi {
         pub(crate) owner: &'a Tok,
     }
 
+    /// an iterable collection: bindings with iterator support wrap `iter()`/`next()` in their own adapters
+    #[diplomat::opaque]
+    #[diplomat::attr(not(supports = iterators), disable)]
+    pub struct TokList {
+        pub(crate) t: Token,
+        pub(crate) items: Vec<Token>,
+    }
+
+    #[diplomat::opaque]
+    #[diplomat::attr(not(supports = iterators), disable)]
+    pub struct TokIter<'a> {
+        pub(crate) t: Token,
+        pub(crate) inner: core::slice::Iter<'a, Token>,
+    }
+
+    impl TokList {
+        pub fn new(n: u32) -> Box<TokList> {
+            let t = Token::new();
+            Box::new(TokList { t, items: (0..n).map(|_| Token::new()).collect() })
+        }
+        pub fn id(&self) -> u32 {
+            assert!(self.t.intact());
+            self.t.id
+        }
+        #[diplomat::attr(auto, iterable)]
+        pub fn iter<'a>(&'a self) -> Box<TokIter<'a>> {
+            Box::new(TokIter { t: Token::new(), inner: self.items.iter() })
+        }
+    }
+
+    impl<'a> TokIter<'a> {
+        #[diplomat::attr(auto, iterator)]
+        pub fn next(&mut self) -> Option<u32> {
+            assert!(self.t.intact());
+            self.inner.next().map(|t| {
+                assert!(t.intact());
+                t.id
+            })
+        }
+    }
+
     pub struct Pod {
         pub a: u32,
         pub b: u8,
